@@ -1,7 +1,7 @@
 """Helpers shared by the per-property harnesses."""
 from symx import sym, universe as U
 from symx.callshape import (Shape, shape_of, Acc, Exec, Site, NonColl, AllPosOrAllKw, KwDisjoint,
-                            And, Or, Not, Const, Base, Shift, Fwd, NLe, role_consistent,
+                            And, Or, Not, Const, Base, Shift, Fwd, NLe, ChainExec, role_consistent,
                             name_aligned, roles)
 
 
